@@ -436,3 +436,56 @@ func registerGob(m map[string]intrinsicFn) {
 		return IfaceV{}
 	}
 }
+
+// ---- dvid slice aliasing (unsafe reinterpretation of integer slices), little-endian ----
+
+func (in *Interp) sliceByteOff(s SliceV) (byteOff, elemBytesN int) {
+	if s.VW != 0 {
+		return s.Off, s.VW
+	}
+	ew := elemBytes(s.Arr)
+	return s.Off * ew, ew
+}
+
+func registerAlias(m map[string]intrinsicFn) {
+	dv := "github.com/janelia-flyem/dvid/dvid."
+	byteTo := func(n int) intrinsicFn {
+		return func(in *Interp, fn *ssa.Function, args []Value) Value {
+			b := args[0].(SliceV)
+			if b.Len == 0 || b.Arr == nil {
+				// the real code evaluates &b[0]
+				in.obligation(in.tb.Bool(false), "index out of range (alias of empty slice)")
+				panic(abortPath{"alias empty"})
+			}
+			off, ew := in.sliceByteOff(b)
+			if ew != 1 {
+				in.unsupportedf("AliasByteTo on non-byte slice")
+			}
+			// array bases are 8-byte aligned (New8ByteAlignBytes / make of >= 8 bytes)
+			if b.Len%n != 0 || off%n != 0 {
+				return TupleV{SliceV{}, in.newError("bad len, cap, or alignment")}
+			}
+			return TupleV{SliceV{Arr: b.Arr, Off: off, Len: b.Len / n, Cap: b.Len / n, VW: n}, IfaceV{}}
+		}
+	}
+	m[dv+"AliasByteToUint64"] = byteTo(8)
+	m[dv+"AliasByteToUint32"] = byteTo(4)
+	m[dv+"AliasByteToUint16"] = byteTo(2)
+	toByte := func(n int) intrinsicFn {
+		return func(in *Interp, fn *ssa.Function, args []Value) Value {
+			s := args[0].(SliceV)
+			if s.Len == 0 || s.Arr == nil {
+				in.obligation(in.tb.Bool(false), "index out of range (alias of empty slice)")
+				panic(abortPath{"alias empty"})
+			}
+			off, ew := in.sliceByteOff(s)
+			if ew != n {
+				in.unsupportedf("AliasUint%dToByte on slice with %d-byte elements", n*8, ew)
+			}
+			return SliceV{Arr: s.Arr, Off: off, Len: s.Len * n, Cap: s.Len * n, VW: 1}
+		}
+	}
+	m[dv+"AliasUint64ToByte"] = toByte(8)
+	m[dv+"AliasUint32ToByte"] = toByte(4)
+	m[dv+"AliasUint16ToByte"] = toByte(2)
+}
